@@ -238,14 +238,12 @@ fn interface_name<'a>(input: &mut &'a [u8]) -> ModalResult<&'a str, InputError<&
     let mut found_dot = false;
     // Subsequent segments: .[A-Za-z0-9]([-]*[A-Za-z0-9])*
     while pos < input.len() && input[pos] == b'.' {
-        found_dot = true;
-        pos += 1; // skip dot
-
         // Must have at least one alphanumeric after dot
-        if pos >= input.len() || !input[pos].is_ascii_alphanumeric() {
+        if pos + 1 >= input.len() || !input[pos + 1].is_ascii_alphanumeric() {
             break;
         }
-        pos += 1;
+        found_dot = true;
+        pos += 2; // skip dot and the first character of the segment
 
         // Continue with alphanumeric and dashes
         while pos < input.len() && (input[pos].is_ascii_alphanumeric() || input[pos] == b'-') {
